@@ -155,6 +155,20 @@ def check_shadowing(ctx, V):
         for w, tt in d.items():
             if isinstance(tt, TT) and tuple(tt) in want_types and T.lookup(w) == tt:
                 words[w] = tt
+    # two dictionaries that disagree on a statement keyword: the one registered first wins, so an entry that types the word
+    # as plain Keyword / Name in an earlier dictionary silently takes it out of the DML/DDL vocabulary
+    nshadow = 0
+    for name, d in T.kw:
+        for w, tt in d.items():
+            if isinstance(tt, TT) and tuple(tt) in want_types:
+                eff = T.lookup(w)
+                nshadow += 1
+                if eff != tt:
+                    first = next((n2 for n2, d2 in T.kw if w in d2), '?')
+                    ctx.ob('R18.3', f'shadowed:{w}', T.kwmod.relpath, f'{name}[{w!r}] = {tt!r} is the type the lexer gives {w}', False,
+                           f'{first}[{w!r}] = {eff!r} is looked up first (registration order of the dictionaries): a statement starting '
+                           f'with {w} gets get_type() == UNKNOWN instead of {w}')
+    ctx.ob('R18.3', 'shadowed:inventory', T.kwmod.relpath, f'{nshadow} DML/DDL/CTE dictionary entries examined for shadowing by an earlier dictionary', nshadow >= 10, '')
     for r in T.lex:
         if isinstance(r.action, TT) and tuple(r.action) in want_types:
             for w in (V.rule_words.get(r.index) or ()):
